@@ -64,7 +64,7 @@ Verdict ==
   IF \E r \in o : IsErrRel(r) THEN "undecided-original-not-in-fragment"
   ELSE IF IsErrRel(Answer) THEN "undecided-plan-column-resolution"
   ELSE IF ~\E r \in o : SameBag(Answer.rows, r.rows) THEN "rows-differ"
-  ELSE IF ordered /\ ~(Answer.ord /\ \E r \in o : r.rows = Answer.rows) THEN "order-differs"
+  ELSE IF ordered /\ ~(Answer.ord /\ \E r \in o : SameOrdered(Answer, r)) THEN "order-differs"
   ELSE IF Cfg.names = 1 /\ ~\E r \in o : Names(r) = Names(Answer) THEN "column-names-differ"
   ELSE "ok"
 
